@@ -1,7 +1,7 @@
 """Layout for flex containers and flex-items."""
 
 import sys
-from math import inf, log10
+from math import inf
 
 from ..css.properties import Dimension
 from ..formatting_structure import boxes
@@ -374,20 +374,15 @@ def flex_layout(context, box, bottom_space, skip_stack, containing_block, page_i
                 if i:
                     remaining_free_space -= main_gap
 
-            if unfrozen_factor_sum < 1:
-                initial_free_space *= unfrozen_factor_sum
-
             if initial_free_space == inf:
                 initial_free_space = sys.maxsize
             if remaining_free_space == inf:
                 remaining_free_space = sys.maxsize
 
-            initial_magnitude = (
-                int(log10(initial_free_space)) if initial_free_space > 0 else -inf)
-            remaining_magnitude = (
-                int(log10(remaining_free_space)) if remaining_free_space > 0 else -inf)
-            if initial_magnitude < remaining_magnitude:
-                remaining_free_space = initial_free_space
+            if unfrozen_factor_sum < 1:
+                scaled_free_space = initial_free_space * unfrozen_factor_sum
+                if abs(scaled_free_space) < abs(remaining_free_space):
+                    remaining_free_space = scaled_free_space
 
             # 9.7.5.c Distribute free space proportional to the flex factors.
             if remaining_free_space == 0:
